@@ -103,7 +103,20 @@ def signal_enumeration(world, op, work, budget, r, evaluate, sigs=("INT", "TERM"
     finally:
         sw.close()
     total = inv0.cp
-    ks, exhaustive = choose_ks(total, budget, r, [(1, total)])
+    # half of a sample goes where the signal meets work in progress: the check points at which at least
+    # one task process is in flight, plus the stretch right after each reap (finish_execution, recording
+    # the version, destructors of the handle)
+    dense, depth, lo = [], 0, None
+    for cp, d in sorted(getattr(inv0, "cp_marks", []), key=lambda x: x[0]):
+        if d > 0 and depth == 0:
+            lo = cp
+        depth += d
+        if depth == 0 and lo is not None:
+            dense.append((lo, cp + 40))
+            lo = None
+    if lo is not None:
+        dense.append((lo, total))
+    ks, exhaustive = choose_ks(total, budget, r, dense or [(1, total)])
     records = []
     for k in ks:
         sig = sigs[k % len(sigs)] if len(sigs) > 1 else sigs[0]
